@@ -42,3 +42,36 @@ def d3_served_while_paused():
                       {"op": "pause", "id": "c2", "name": H(b"web"), "fail_after": 10 * SEC, "drain_timeout": 3 * SEC},
                       {"op": "release", "point": "req:gate-passed", "who": ""}, {"op": "sleep", "ns": SEC},
                       {"op": "resume", "id": "c3", "name": H(b"web")}, {"op": "sleep", "ns": SEC}]}
+
+
+def deploy_waits_for_rotation():
+    """the deploy goroutine is held between creating the balancer and waiting on it, the probe goroutine between applying
+    its first successful result and rebuilding the rotation: the wait must not succeed before the rotation holds the target"""
+    return {"steps": [dep("c1", [b"ta:80"]),
+                      {"op": "arm", "point": "deploy:lb-created", "n": 1}, {"op": "arm", "point": "probe:applied", "n": 1},
+                      dep("c2", [b"tb:80"], asyn=True), {"op": "settle"},
+                      {"op": "release", "point": "deploy:lb-created", "who": ""}, {"op": "sleep", "ns": SEC // 10},
+                      req("r1"), req("r2"), {"op": "sleep", "ns": SEC // 10},
+                      {"op": "release", "point": "probe:applied", "who": ""}, {"op": "sleep", "ns": 2 * SEC},
+                      req("r3"), {"op": "sleep", "ns": SEC}]}
+
+
+def pause_drains_stopped_rollout():
+    """a request in flight on a rollout target after `rollout stop`: pause must still wait for it / cut it off"""
+    rd = {"op": "rollout_deploy", "id": "c2", "name": H(b"web"), "targets": [{"name": H(b"tr:80"), "probes": ["ok"]}],
+          "deploy_timeout": 5 * SEC, "drain_timeout": SEC}
+    rs = {"op": "rollout_set", "id": "c3", "name": H(b"web"), "pct": 100, "allow": []}
+    r = dict(req("r1", "delay:%d" % (2 * SEC)), headers=[[H(b"Cookie"), H(b"kamal-rollout=alice")]])
+    return {"steps": [dep("c1", [b"ta:80"]), rd, rs, r, {"op": "sleep", "ns": SEC // 10},
+                      {"op": "rollout_stop", "id": "c4", "name": H(b"web")},
+                      {"op": "pause", "id": "c5", "name": H(b"web"), "fail_after": 10 * SEC, "drain_timeout": 5 * SEC},
+                      {"op": "sleep", "ns": 3 * SEC}, {"op": "resume", "id": "c6", "name": H(b"web")}, {"op": "sleep", "ns": SEC}]}
+
+
+def drain_grants_the_drain_timeout():
+    """deploy timeout shorter than the drain timeout; a request in flight longer than the former and shorter than the
+    latter must run to completion"""
+    d2 = dep("c2", [b"tb:80"], drain=5 * SEC)
+    d2["deploy_timeout"] = SEC
+    return {"steps": [dep("c1", [b"ta:80"]), req("r1", "delay:%d" % (3 * SEC)), {"op": "sleep", "ns": SEC // 10}, d2,
+                      {"op": "sleep", "ns": 4 * SEC}]}
